@@ -67,11 +67,24 @@ def main() -> int:
     c.add_argument("--tier", default=os.environ.get("VERIF_TIER", "quick"), choices=["quick", "thorough"])
     r = sub.add_parser("replay")
     r.add_argument("path")
+    vc = sub.add_parser("variant-check")
+    vc.add_argument("prop")
     a = sub.add_parser("all")
     a.add_argument("--tier", default="quick")
     args = ap.parse_args()
     if args.cmd == "check":
         return run_check(args.prop, args.tier)
+    if args.cmd == "variant-check":
+        from sa.core.ctx import Ctx
+        col = Collector(args.prop)
+        try:
+            importlib.import_module(f"sa.rules.{args.prop.lower()}").check(Ctx(), col, "quick")
+            print(json.dumps({"findings": sorted({f"{o.rule} {o.key}" for o in col.obs if not o.ok})}))
+        except AnalysisError as e:
+            print(json.dumps({"error": str(e)}))
+        except Exception as e:  # noqa: BLE001
+            print(json.dumps({"error": f"internal: {type(e).__name__}: {e}"}))
+        return 0
     if args.cmd == "all":
         rc = 0
         for p in PROPS:
